@@ -19,7 +19,14 @@ def cov(X, bias):
     return np.atleast_2d(Xc.T @ Xc / (X.shape[0] - 1 + (1 if bias else 0)))
 
 
+WORST_COND = [1.0]     # largest condition number among the block covariances inverted for the current reference
+
+
 def inv_cov(C, n_components):
+    try:
+        WORST_COND[0] = max(WORST_COND[0], float(np.linalg.cond(C)))
+    except Exception:
+        pass
     if n_components is None or n_components >= C.shape[0]:
         return np.linalg.inv(C)
     w, v = np.linalg.eigh((C + C.T) / 2)
@@ -96,9 +103,12 @@ def judge_state(ctx, m, where):
     scale_x = max(1.0, float(np.abs(X).max()))
     if not (mean_err <= 1e-9 * scale_x):
         ctx.fail("model_mean_is_not_the_sample_mean", cls=cls, mech=mech, err=mean_err)
+    WORST_COND[0] = 1.0
     R = reference_precision(X, edges, V, k, m.mode, m.bias, m.n_components)
     nrm = max(1e-300, float(np.abs(R).max()))
-    tol = (1e-7 if np.dtype(m.dtype) == np.float64 else 2e-5) * nrm
+    # inverting a block covariance costs cond x machine-epsilon digits (seen: 1.5e-7 at cond ~ 1e8 in 64 000 thorough cases)
+    tol = (min(1e-4, max(1e-7, 1e-13 * WORST_COND[0])) if np.dtype(m.dtype) == np.float64 else 2e-5) * nrm
+    ctx.err("worst_block_condition_number", WORST_COND[0])
     if where != "init" and np.dtype(m.dtype) == np.float32:
         tol = 5e-3 * nrm      # float32 running second moments lose digits by cancellation (6e-4 seen in 20 000 cases)
     e = float(np.abs(Q - R).max())
